@@ -40,6 +40,7 @@ EXPECTED_PROBES = ["probe_get_ok", "probe_post_ok", "probe_unknown_path", "probe
                    "probe_concurrent_pair", "probe_keepalive_reuse", "probe_disconnect_mid_request", "probe_webc", "probe_nonascii_param",
                    "probe_ws_pushed", "probe_ws_sent", "probe_ws_peer_close", "probe_ws_mixed_list", "probe_ws_object",
                    "probe_ws_handler_amends_its_message", "probe_ws_same_text_repeated", "probe_post_chunked", "probe_post_multipart",
+                   "probe_klongloop_evaluation_beside_requests",
                    "probe_handler_rebound_to_non_function", "probe_request_while_handler_is_not_a_function", "probe_post_with_query_string",
                    "probe_ws_send_mutated_dict", "probe_ws_two_connections"]
 WALL_CAP = {"quick": 400, "thorough": 3600}
@@ -55,8 +56,8 @@ def setup_worker():
 
 def plan(tier):
     if tier == "quick":
-        return [("http", {"mode": "http"}, 1800, 50), ("ws", {"mode": "ws"}, 1200, 50)]
-    return [("http", {"mode": "http"}, 60000, 100), ("ws", {"mode": "ws"}, 40000, 100)]
+        return [("http", {"mode": "http"}, 1800, 50), ("ws", {"mode": "ws"}, 1200, 50), ("http-busy", {"mode": "http", "bg": 1}, 600, 50)]
+    return [("http", {"mode": "http"}, 60000, 100), ("ws", {"mode": "ws"}, 40000, 100), ("http-busy", {"mode": "http", "bg": 1}, 30000, 100)]
 
 
 PATHS = ["/", "/a", "/a/b", "/ab", "/p", "/a/b/c", "/q", "/t/", "/a/d/"]     # incl. paths that end in a slash: "/t/" is not "/t"
@@ -80,10 +81,34 @@ def scenario(ch, cfg):
     H.start()
     reclog = []
 
+    bg = bool(cfg.get("bg"))
+
     def rec(x, y):
         reclog.append((int(x), dict(y)))
+        if bg:
+            if inflight["bg"]:
+                stats["probe_handler_started_inside_a_klongloop_evaluation"] += 1
+            inflight["handler"] += 1
+            for _ in range(8):
+                w.yield_point("handler")       # a handler takes a while: the server's other loop runs meanwhile
+            inflight["handler"] -= 1
         return 1
     srv.klong["rec"] = rec
+    # http-busy: the same process also evaluates on its klong loop while requests come in - a timer, the REPL, an IPC request
+    # (examples/db/server.kg runs .web, .timer and -s together): the handler still gets its request's dictionary and answers
+    # with its own result, and the other evaluation still gets its own
+    bgres = []
+    inflight = {"bg": 0, "handler": 0}
+
+    def bgy(x):
+        if inflight["handler"]:
+            stats["probe_klongloop_evaluation_started_inside_a_handler"] += 1
+        inflight["bg"] += 1
+        for _ in range(40):
+            w.yield_point("klongloop.work")    # an evaluation that takes a while (a timer callback flushing a table, a remote request)
+        inflight["bg"] -= 1
+        return 0
+    srv.klong["bgy"] = bgy
     twin["rec"] = lambda x, y: 1
     # ---- route table
     nget = ch.draw(4, "nget")
@@ -418,6 +443,23 @@ def scenario(ch, cfg):
     def start():
         task_box["t"] = asyncio.ensure_future(driver(), loop=H)
     H.call_soon_threadsafe(start)
+    if bg:
+        srv.on_klongloop(lambda: srv.klong("bgf::{[a];a::x*2;bgy(0);a+x}"))
+
+        def bgjob(n):
+            if done["flag"] or n <= 0:
+                return
+            arg = 7 + (n % 5)
+            try:
+                r = srv.klong(f"bgf({arg})")
+                bgres.append((arg, "ok", int(r) if hasattr(r, "__int__") else repr(r)))
+            except SystemExit:
+                raise
+            except BaseException as e:   # noqa
+                bgres.append((arg, "exc", f"{type(e).__name__}: {str(e)[:60]}"))
+            stats["probe_klongloop_evaluation_beside_requests"] += 1
+            srv.klongloop.call_later(0.0005, bgjob, n - 1)
+        srv.klongloop.call_soon_threadsafe(bgjob, 60)
     reason = w.run(until=lambda: done["flag"] or (task_box.get("t") is not None and task_box["t"].done()), max_steps=60000, max_time=600.0)
     t = task_box.get("t")
     if t is not None and t.done() and t.exception() is not None:
@@ -425,6 +467,11 @@ def scenario(ch, cfg):
         import traceback
         tb = "".join(traceback.format_exception(type(e), e, e.__traceback__))[-600:]
         raise HarnessError(f"http driver crashed: {tb}")
+    for arg, kind, val in bgres:
+        if kind != "ok" or val != 3 * arg:
+            viol("C20:http:klongloop-evaluation-disturbed-by-a-request", f"bgf::{{[a];a::x*2;bgy(0);a+x}}; bgf({arg}) evaluated on the klong loop while requests "
+                 f"were being served gave {kind} {val!r}, expected {3 * arg}")
+            break
     if not done["flag"]:
         viol(f"C20:http:no-progress:{reason}", f"driver stuck after {log[-2:]} ({w.steps} steps, t={w.now})")
     frag = stats.get("net_fragments", 0) > 0
